@@ -221,33 +221,42 @@ def parse_sanitizer(text):
     return found
 
 
+TSAN_FRAME = re.compile(r'^\s*#(\d+) (.+?) (/\S+?):(\d+)(?::\d+)? \(.*\)\s*$')
+
+
+def tsan_site(frames):
+    """frames: list of (func, file). First frame in the repository -> 'File.cpp:func'."""
+    for fn, path in frames:
+        if path.startswith(REPO + '/'):
+            return os.path.basename(path) + ':' + norm_func(fn)
+    return None
+
+
 def parse_tsan(text):
-    """ThreadSanitizer report blocks -> list of (rule, site, excerpt, has_tulz)."""
+    """ThreadSanitizer report blocks -> list of (rule, site, excerpt, has_tulz).
+    The key is the pair of top tulz frames of the two conflicting accesses (line numbers stripped)."""
     out = []
-    blocks = re.split(r'^={18,}\s*$', text, flags=re.M)
-    for b in blocks:
+    for b in re.split(r'^={18,}\s*$', text, flags=re.M):
         m = re.search(r'WARNING: ThreadSanitizer: ([^\n(]+)', b)
         if not m:
             continue
         kind = m.group(1).strip().replace(' ', '-')
-        # stacks: sequences of frames separated by blank lines / headers
-        stacks, cur = [], []
+        # sections start with a two-space indented header line; the first two sections are the conflicting accesses
+        sections, cur = [], None
         for ln in b.splitlines():
-            if FRAME.match(ln):
-                cur.append(ln)
-            else:
-                if cur:
-                    stacks.append(cur)
+            fm = TSAN_FRAME.match(ln)
+            if fm:
+                if cur is not None:
+                    cur.append((fm.group(2), fm.group(3)))
+            elif re.match(r'^  \S', ln):
                 cur = []
-        if cur:
-            stacks.append(cur)
-        sites = []
-        for stck in stacks[:2]:   # the two conflicting accesses
-            s = tulz_site(stck)
-            sites.append(s or 'no-tulz-frame')
+                sections.append((ln.strip(), cur))
+        access = [fr for hdr, fr in sections if re.match(r'(Previous )?(atomic )?(read|write)', hdr, re.I)][:2]
+        if len(access) < 2:
+            access = [fr for hdr, fr in sections][:2]
+        sites = [tsan_site(fr) or 'no-tulz-frame' for fr in access]
         has = any(s != 'no-tulz-frame' for s in sites)
-        site = ' <-> '.join(sorted(sites))
-        out.append(('tsan:' + kind, site, b.strip()[:3000], has))
+        out.append(('tsan:' + kind, ' <-> '.join(sorted(sites)), b.strip()[:3500], has))
     return out
 
 
@@ -311,7 +320,8 @@ def run_job(job, exe, rundir, idx, default_prop):
         env = dict(os.environ)
         env.update(SAN_ENV)
         if job.tsan:
-            env['TSAN_OPTIONS'] = 'halt_on_error=0:history_size=7:second_deadlock_stack=1:exitcode=0:log_path=' + base + '.tsan'
+            env['TSAN_OPTIONS'] = ('halt_on_error=0:history_size=7:second_deadlock_stack=1:exitcode=0:suppressions=' +
+                                   os.path.join(VERIF, 'driver', 'tsan.supp') + ':log_path=' + base + '.tsan')
         env.update(job.env)
         if job.valgrind:
             cmd = ['valgrind', '--quiet', '--error-exitcode=77', '--leak-check=full', '--errors-for-leak-kinds=definite',
